@@ -640,6 +640,7 @@ package fit
 //@   ensures [content] {C02 C04 C12 C13} inv_content(d)
 //@   requires [header] {C13} d.bytes.n >= 1 && recordHeader == lastByte(d) && compressed == (recordHeader&0x80 == 0x80)
 //@   requires [latest] {C13} defs_latest(d)
+//@   gassign {C03} nvalid(d) := nvalid(d)+1 when err == nil && rvvalid(r)
 //@@ C02: every record is decoded into a message of its own, created all-invalid for this record (fields that the
 //@@ record does not carry therefore hold their invalid values: constructors checked by the C15 table obligations)
 //@   ensures [fresh-msg] {C02} err == nil && rvvalid(r) ==> fresh(r)
@@ -678,8 +679,14 @@ package fit
 //@   requires rvvalid(msg) && !typeis[*File](m)
 //@   assigns ifaceobj(m)
 
+//@@ C03: every valid decoded message is handed to the file exactly once: ghost counters of messages produced by
+//@@ parseDataMessage and of calls of File.add, kept equal by the record loop
+//@ ghost func nadded(f *File) int
+//@ ghost func nvalid(d *decoder) int
+
 //@ func (f *File) add(msg reflect.Value)
 //@   props C01 C03
+//@   gassign {C03} nadded(f) := nadded(f)+1
 //@   nosubtype
 //@   requires [valid] rvvalid(msg)
 //@   requires [router] typeis[FileIdMsg](ifaceOf(msg)) || file_ready(f)
@@ -854,6 +861,8 @@ package fit
 //@ pred file_inv(d *decoder) := d.file != nil
 
 //@ func (d *decoder) parseFileIdMsg() (err error)
+//@   ensures [added] {C03} err == nil ==> nadded(d.file)-old(nadded(d.file)) == nvalid(d)-old(nvalid(d))
+//@   assigns {C03} nadded(d.file), nvalid(d)
 //@   requires [content] {C02 C04 C12 C13} inv_content(d)
 //@   ensures [content] {C02 C04 C12 C13} inv_content(d)
 //@   requires [latest] {C13} defs_latest(d)
@@ -873,6 +882,10 @@ package fit
 //@   assigns d.file.FileId, d.file.FileCreator, d.file.TimestampCorrelation, d.file.fieldDescriptionMsgs, d.file.developerDataIdMsgs, ifaceobj(d.file.msgAdder)
 
 //@ func (d *decoder) decodeFileData() (err error)
+//@   ensures [added] {C03} nadded(d.file)-old(nadded(d.file)) == nvalid(d)-old(nvalid(d))
+//@   assigns {C03} nadded(d.file), nvalid(d)
+//@   loop 0 invariant [added] {C03} nadded(d.file)-old(nadded(d.file)) == nvalid(d)-old(nvalid(d))
+//@   loop 0 dispatches {C03} parseDataMessage parseDefinitionMessage
 //@   requires [content] {C02 C04 C12 C13} inv_content(d)
 //@   ensures [content] {C02 C04 C12 C13} inv_content(d)
 //@   requires [latest] {C13} defs_latest(d)
